@@ -471,6 +471,30 @@ fn sections(p: &Params) -> Program {
                 reader(1, 2),
             ]
         }
+        // 14. (C13) reactivating one of two nested guards is a no-op: the outer guard's critical
+        //     section goes on, whatever the other participants do meanwhile
+        13 => {
+            nhandles = 4;
+            vec![
+            ebody(&ew, move |c, ew| {
+                let h = take(0)(ew);
+                let g1 = c.pin(&h);
+                let mut g2 = c.pin(&h);
+                c.mark();
+                c.reactivate(&mut g2);
+                c.mark();
+                c.reactivate(&mut g2);
+                c.mark();
+                c.unpin(g2);
+                c.unpin(g1);
+                drop(h);
+            }),
+            // (one thread per step, so that only thread 0 has to be interrupted: three times)
+            deferrer(1, 0),
+            advancer(2, 1),
+            advancer(3, 1),
+        ]
+        }
         // 12. (C14) a guard that has outlived its handle is reactivated while another participant
         //     advances: the participant must stay registered (and hold the epoch back) for as
         //     long as the guard lives
@@ -1476,6 +1500,10 @@ fn list_catalogue(prog: i64) -> (Vec<usize>, Vec<Vec<LOp>>) {
         2 => (vec![1], vec![vec![Traverse], vec![Insert(2), Delete(2)], vec![Traverse]]),
         3 => (vec![1, 2, 3], vec![vec![Delete(2), Traverse], vec![Delete(3), Traverse]]),
         4 => (vec![1, 2, 3], vec![vec![Traverse], vec![Delete(3), Traverse], vec![Delete(2)]]),
+        // three neighbours 3 -> 2 -> 1 (the list is newest first): 2 is deleted; a traversal that
+        // is about to unlink it is overtaken by another one, which unlinks it and then deletes
+        // both the predecessor and the successor
+        6 => (vec![1, 2, 3, 4], vec![vec![Delete(2)], vec![Traverse], vec![Traverse, Delete(3), Delete(1)]]),
         _ => (vec![], vec![vec![Insert(1), Traverse], vec![Insert(2), Traverse], vec![Traverse]]),
     }
 }
